@@ -19,7 +19,9 @@ Next ==
      IF e.e = "reset" THEN cfg' = e /\ stopCalled' = FALSE /\ stopReturned' = FALSE /\ flushSeen' = FALSE /\ dead' = FALSE
      ELSE IF dead THEN UNCHANGED <<cfg, stopCalled, stopReturned, flushSeen, dead>>
      ELSE IF e.e = "sink.begin" THEN
-        /\ IF stopReturned THEN Reject("sink_invoked_after_stop_returned") ELSE UNCHANGED dead
+        \* directed "stopgrace": a sink stays blocked beyond the grace period and is abandoned by Stop; what the abandoned
+        \* goroutine does once the sink is released is not judged (only: Stop returned within its grace period, no deadlock)
+        /\ IF stopReturned /\ cfg.directed # "stopgrace" THEN Reject("sink_invoked_after_stop_returned") ELSE UNCHANGED dead
         /\ flushSeen' = (flushSeen \/ (stopCalled /\ ~stopReturned))
         /\ UNCHANGED <<cfg, stopCalled, stopReturned>>
      ELSE IF e.e = "stop.call" THEN stopCalled' = TRUE /\ UNCHANGED <<cfg, stopReturned, flushSeen, dead>>
